@@ -46,7 +46,26 @@ def build(cfg):
         # the audit workflow constructs the test with one bound and installs the real one later (asn.test.u = u):
         # the object must behave as if it had been built with the bound it now holds
         obj.u = cfg["u"]
+    if "N_warm" in cfg and math.isfinite(N):
+        # the same object is used for another population first (N is a plain attribute: sample_size(), re-used test
+        # objects and notebooks re-assign it); a call with the old N must leave no trace
+        obj.N = int(cfg["N_warm"])
+        try:
+            import numpy as _np
+            with _np.errstate(all="ignore"):
+                obj.test(_np.full(min(int(cfg["N_warm"]), int(cfg.get("warm_len", 1))), float(cfg["t"])))
+        except Exception:
+            pass
+        obj.N = N
     return obj
+
+
+def to_array(x, cfg=None):
+    """Samples are numpy arrays; integer-valued samples are sometimes handed over with an integer dtype (0/1 data)."""
+    import numpy as _np
+    if cfg is not None and cfg.get("int_dtype") and all(float(v).is_integer() for v in x):
+        return _np.array([int(v) for v in x], dtype=int)
+    return _np.array(x, dtype=float)
 
 
 def cfgN(cfg):
@@ -113,7 +132,8 @@ def gen_cfg(rng, combo=None, finite=None, n_max=12, allow_not_random=True, u=Non
     if bet == "fixed_bet":
         kw["lam"] = (1 / u) * rng.choice((2.0 ** -10, 0.25, 0.5, 0.75, 1.0))
     if bet == "agrapa":
-        kw["lam"] = (1 / u) * rng.choice((2.0 ** -10, 0.25, 0.5, 1.0))
+        # the initial bet is a free aGRAPA parameter: values far above 1/t must be clipped by the rule itself
+        kw["lam"] = (1 / u) * rng.choice((2.0 ** -10, 0.25, 0.5, 1.0, 1.0, 4.0, 16.0))
         c0 = rng.choice((0.125, 0.5, 0.75, 1 - EPS))
         kw["c_grapa_0"] = c0
         kw["c_grapa_max"] = rng.choice((c0, 1 - EPS))
@@ -122,6 +142,10 @@ def gen_cfg(rng, combo=None, finite=None, n_max=12, allow_not_random=True, u=Non
            "random_order": random_order, "kw": kw}
     if rng.random() < 0.25:
         cfg["u_built"] = rng.choice((1.0, 2.0, 1.0, u * 2, max(t + 2.0 ** -6, u / 2)))
+    if N != "inf" and rng.random() < 0.25:
+        cfg["N_warm"] = rng.choice((N + 1, N + 7, 2 * N, max(1, N - 1), 1000))
+    if u == 1.0 and rng.random() < 0.3:
+        cfg["int_dtype"] = True
     return cfg
 
 
